@@ -32,6 +32,8 @@ pub enum Dg {
     Big(u16, u8),
     /// a query for names the store is likely to hold (colliding alphabet of C13)
     StoreQuery(Vec<AQuestion>),
+    /// a pointer graph of C01 (chains, self / forward / absolute pointers, pointers into fixed fields, stray tail octets)
+    Graph(super::c01::Graph),
 }
 
 const SERVICE: &str = "_srv._tcp.local";
@@ -67,6 +69,11 @@ pub fn render_dg(d: &Dg) -> Vec<u8> {
             let p = APacket { id: 77, questions: qs.clone(), ..Default::default() };
             encode_message(&p, &EncOpts::compressed())
         }
+        Dg::Graph(g) => {
+            let mut m = super::c01::render_graph(g);
+            m.truncate(8900);
+            m
+        }
         Dg::Big(n, fill) => {
             let n = 1000 + (*n as usize % 8001);
             let mut m = vec![*fill; n];
@@ -88,6 +95,7 @@ fn dg_strategy() -> BoxedStrategy<Dg> {
         4 => gen::apacket(3).prop_map(Dg::Response),
         4 => vec((gen::label(), gen::ardata()), 1..5).prop_map(Dg::ServiceResponse),
         1 => (any::<u16>(), gen::u8b()).prop_map(|(n, f)| Dg::Big(n, f)),
+        2 => super::c01::graph_strategy(Tier::Quick).prop_map(|mut g| { g.repeat_last = g.repeat_last.min(300); Dg::Graph(g) }),
         4 => vec((super::c13::coll_record(), proptest::sample::select(vec![255u16, 1, 33, 16]), any::<bool>()), 1..3)
             .prop_map(|v| Dg::StoreQuery(v.into_iter().map(|(r, qtype, unicast)| AQuestion { name: r.name, qtype, qclass: 255, unicast }).collect())),
     ]
@@ -564,6 +572,69 @@ fn check_socket(count: &u32, case: &mut Case) -> Result<(), Fail> {
 
 // ---- readers and writers on the shared store at the same time
 
+// ---- replies larger than 16 KiB: a responder with a few hundred records answers an ANY query for their parent
+
+/// (which record carries the padding, padding octets, query id)
+fn enum_big(t: Tier, shard: usize, n: usize, f: &mut dyn FnMut((u8, u8, u16)) -> bool) {
+    let mut i = 0;
+    for which in 0..t.pick(6u8, 24) {
+        for pad in 0..=255u8 {
+            i += 1;
+            if mine(i, shard, n) && !f((which, pad, if pad % 2 == 0 { 0x4141 } else { 0x0007 })) {
+                return;
+            }
+        }
+    }
+}
+
+fn check_big(input: &(u8, u8, u16), case: &mut Case) -> Result<(), Fail> {
+    let (which, pad, id) = *input;
+    const OWNERS: usize = 96;
+    let mut store: ResourceRecordManager<'static> = ResourceRecordManager::new();
+    let mut registered: Vec<ARecord> = Vec::new();
+    let mut add = |r: ARecord, store: &mut ResourceRecordManager<'static>| -> Result<(), Fail> {
+        let rr = build_record(&r).map_err(|e| Fail::new("harness:build", e))?.into_owned();
+        lib("add_authoritative_resource", || store.add_authoritative_resource(rr))?;
+        registered.push(r);
+        Ok(())
+    };
+    let a = |ip: u32| ARData::Typed { code: 1, fields: vec![Val::U32(ip)] };
+    add(ARecord { name: AName::from_strs(&["big", "local"]), class: 1, cache_flush: false, ttl: 120, rdata: a(1) }, &mut store)?;
+    for k in 0..OWNERS {
+        let owner = AName::from_strs(&[&format!("r{}", k), "big", "local"]);
+        let mut strings = vec![Bytes(vec![b'x'; 150])];
+        if k == which as usize * 4 && pad > 0 {
+            strings.push(Bytes(vec![b'p'; pad as usize]));
+        }
+        add(ARecord { name: owner.clone(), class: 1, cache_flush: false, ttl: 120, rdata: ARData::Typed { code: 16, fields: vec![Val::Strs(strings)] } }, &mut store)?;
+        add(ARecord { name: owner, class: 1, cache_flush: false, ttl: 120, rdata: a(0x0a000000 + k as u32) }, &mut store)?;
+    }
+    let q = APacket { id, questions: vec![AQuestion { name: AName::from_strs(&["big", "local"]), qtype: 255, qclass: 1, unicast: false }], ..Default::default() };
+    let qbytes = encode_message(&q, &EncOpts::plain());
+    let packet = parse(&qbytes)?.map_err(|e| Fail::new("harness:query", format!("{:?}", e)))?;
+    let reply = lib("responder: build_reply", || build_reply(packet, &store).map(|(p, u)| (p.build_bytes_vec_compressed(), u)))?;
+    let Some((Ok(bytes), _)) = reply else {
+        return Err(Fail::new("c14:no-big-reply", "a query for the parent of a few hundred registered records got no reply"));
+    };
+    case.class(if bytes.len() > 16384 { "reply-over-16k" } else { "reply-below-16k" });
+    case.nontrivial = bytes.len() > 16384;
+    let back = parse(&bytes)?.map_err(|e| Fail::new("c14:reply-unparseable", format!("a {}-byte reply is not a parseable DNS message: {:?}", bytes.len(), e)))?;
+    let o = lib("observe", || observe(&back))?;
+    for r in o.answers.iter().chain(o.additionals.iter()) {
+        ensure!(
+            registered.iter().any(|x| x.name == r.name && x.rdata == r.rdata && x.class == r.class),
+            "c14:reply-garbled",
+            "a {}-byte reply (id {:#06x}) carries a record that is not registered: {:?} type {}",
+            bytes.len(),
+            id,
+            r.name.render(),
+            r.rdata.code()
+        );
+    }
+    ensure!(o.answers.len() >= OWNERS, "c14:reply-garbled", "the reply carries {} answers for {} registered records", o.answers.len(), registered.len());
+    Ok(())
+}
+
 fn enum_concurrent(t: Tier, shard: usize, _n: usize, f: &mut dyn FnMut(u32) -> bool) {
     if shard < t.pick(2, 6) {
         f(shard as u32);
@@ -626,7 +697,7 @@ fn check_concurrent(seed: &u32, case: &mut Case) -> Result<(), Fail> {
 pub fn def() -> CheckDef {
     CheckDef {
         id: "C14",
-        rule: "(1) pure pipeline, proptest: a store pre-loaded by 0..7 random operations (as C13) plus a canary record; sequences of 1..19 datagrams drawn from {empty, 1..11 bytes, random bytes, reference encodings with hostile names and 0..8 mutations, valid queries, valid responses, responses under the watched service with hostile instance labels (non-UTF-8, 63 bytes, dots), 1000..9000-byte datagrams}; each datagram goes, step for step, through what the three receive loops do (responder: header peek with unwrap_or(true), parse, build_reply, build_bytes_vec_compressed; discovery: parse, add_response_to_resources (sync, or the async-tokio copy for every third response) under a real RwLock write guard with and without an on_discovery channel, or build_reply; application: get_known_services; one-shot resolver: header peek on a 4096-byte buffer, parse, answer scan). Oracle: no panic, lock not poisoned, every reply parses, the canary is still answered. (1b) six threads run the same handling steps concurrently against one shared store for 300 ms (no panic, lock not poisoned; schedules are whatever the OS gives). (2) real sockets, sampled: a real SimpleMdnsResponder and ServiceDiscovery (sync), then the async-tokio responder and discovery on a current-thread runtime, on loopback multicast receive 300 (6000 thorough) generated datagrams between two probe queries, and a real OneShotMdnsResolver (sync, and the async-tokio copy on its own runtime) issues queries while generated responses about the name it asks for (every RDATA kind, also empty RDATA under the asked types) arrive; violation iff a library thread panicked or the responder stops answering; skipped (no claim) when multicast is unusable. Non-trivial = a datagram shorter than 12 bytes or a parsed datagram with hostile names",
+        rule: "(1) pure pipeline, proptest: a store pre-loaded by 0..7 random operations (as C13) plus a canary record; sequences of 1..19 datagrams drawn from {empty, 1..11 bytes, random bytes, reference encodings with hostile names and 0..8 mutations, valid queries, valid responses, responses under the watched service with hostile instance labels (non-UTF-8, 63 bytes, dots), 1000..9000-byte datagrams}; each datagram goes, step for step, through what the three receive loops do (responder: header peek with unwrap_or(true), parse, build_reply, build_bytes_vec_compressed; discovery: parse, add_response_to_resources (sync, or the async-tokio copy for every third response) under a real RwLock write guard with and without an on_discovery channel, or build_reply; application: get_known_services; one-shot resolver: header peek on a 4096-byte buffer, parse, answer scan). Oracle: no panic, lock not poisoned, every reply parses, the canary is still answered. (1a) replies beyond 16 KiB: a responder holding 193 records under r0..r95.big.local answers an ANY query for big.local; one record is padded by 0..255 octets (6 (24 thorough) choices of the record) so that every name meets every alignment around offset 16384; the reply must parse and carry only registered records. (1b) six threads run the same handling steps concurrently against one shared store for 300 ms (no panic, lock not poisoned; schedules are whatever the OS gives). (2) real sockets, sampled: a real SimpleMdnsResponder and ServiceDiscovery (sync), then the async-tokio responder and discovery on a current-thread runtime, on loopback multicast receive 300 (6000 thorough) generated datagrams between two probe queries, and a real OneShotMdnsResolver (sync, and the async-tokio copy on its own runtime) issues queries while generated responses about the name it asks for (every RDATA kind, also empty RDATA under the asked types) arrive; violation iff a library thread panicked or the responder stops answering; skipped (no claim) when multicast is unusable. Non-trivial = a datagram shorter than 12 bytes or a parsed datagram with hostile names",
         assumptions: vec![
             "the pure pipeline copies the loop bodies (simple_responder.rs, service_discovery.rs, oneshot_resolver.rs); an edit to the loops themselves is only visible to the socket section",
             "reader/writer interleavings on the shared store are only sampled (section concurrent), not explored systematically",
@@ -634,6 +705,7 @@ pub fn def() -> CheckDef {
         sections: vec![
             Box::new(ReplayOnly { name: "fuzz-bytes", check: check_raw }),
             Box::new(PropSection { name: "pipeline", rule: "datagram sequences through the handling steps", strategy, cases: (60_000, 800_000), check }),
+            Box::new(EnumSection { name: "big-replies", rule: "replies beyond 16 KiB, every alignment of the 16384 boundary", enumerate: enum_big, check: check_big, exhaustive: false }),
             Box::new(EnumSection { name: "concurrent", rule: "six threads handle datagrams against one shared store for 300 ms", enumerate: enum_concurrent, check: check_concurrent, exhaustive: false }),
             Box::new(EnumSection { name: "sockets", rule: "real services on loopback multicast", enumerate: enum_socket, check: check_socket, exhaustive: false }),
         ],
